@@ -62,14 +62,14 @@ const (
 	PathSeparator = '/'
 )
 
-func Exit(code int)                 { realos.Exit(code) }
-func Getenv(k string) string        { return realos.Getenv(k) }
-func Getpid() int                   { return 4242 }
-func Hostname() (string, error)     { return "simhost", nil }
-func IsNotExist(err error) bool     { return errors.Is(err, fs.ErrNotExist) }
-func IsExist(err error) bool        { return errors.Is(err, fs.ErrExist) }
-func IsPermission(err error) bool   { return errors.Is(err, fs.ErrPermission) }
-func TempDir() string               { return "/tmp" }
+func Exit(code int)                     { realos.Exit(code) }
+func Getenv(k string) string            { return realos.Getenv(k) }
+func Getpid() int                       { return 4242 }
+func Hostname() (string, error)         { return "simhost", nil }
+func IsNotExist(err error) bool         { return errors.Is(err, fs.ErrNotExist) }
+func IsExist(err error) bool            { return errors.Is(err, fs.ErrExist) }
+func IsPermission(err error) bool       { return errors.Is(err, fs.ErrPermission) }
+func TempDir() string                   { return "/tmp" }
 func LookupEnv(k string) (string, bool) { return realos.LookupEnv(k) }
 
 // ErrCrashed is returned by every operation of a stopped incarnation.
@@ -96,6 +96,21 @@ const (
 	CrashAfter         // the I/O point takes full effect, then the process stops
 	CrashTorn          // (writes) the first TornK bytes reach the volatile image
 )
+
+// ErrPoint injects an error at a given I/O index of a node.
+type ErrPoint struct {
+	Idx int64
+	Err error
+}
+
+func (n *Node) errAt(idx int64) (error, bool) {
+	for _, e := range n.ErrAt {
+		if e.Idx == idx {
+			return e.Err, true
+		}
+	}
+	return nil, false
+}
 
 // Op describes a state-changing call at an I/O point.
 type Op struct {
@@ -124,12 +139,12 @@ type Node struct {
 	CrashAt   int64 // crash when IOCount == CrashAt (0 = never); index of first point is 1
 	CrashMode int
 	TornFrac  float64
-	Crashed   bool            // set when the crash fired; cleared by Mount/Restart
-	ErrAt     map[int64]error // explicit error at I/O index
-	FailNext  [NOp]int        // fail the next n operations of a kind (EIO)
-	ErrRate   [NOp]float64    // seeded error probability per kind
-	ShortRead float64         // probability of a short read
-	Latency   time.Duration   // max virtual latency per I/O point (0 = none)
+	Crashed   bool          // set when the crash fired; cleared by Mount/Restart
+	ErrAt     []ErrPoint    // explicit error at I/O index
+	FailNext  [NOp]int      // fail the next n operations of a kind (EIO)
+	ErrRate   [NOp]float64  // seeded error probability per kind
+	ShortRead float64       // probability of a short read
+	Latency   time.Duration // max virtual latency per I/O point (0 = none)
 	// BeforePoint is called before a state-changing op is applied (snapshots).
 	BeforePoint func(n *Node, idx int64, op *Op)
 	// OnCrash is called right after the crash fired, before tasks are killed.
@@ -146,9 +161,9 @@ type Stats struct {
 }
 
 type FS struct {
-	files   map[string]*inode
-	dirs    map[string]bool
-	nodes   map[string]*Node
+	files   pmap[*inode]
+	dirs    pmap[bool]
+	nodes   pmap[*Node]
 	tmpSeq  int
 	created int
 }
@@ -156,7 +171,10 @@ type FS struct {
 var cur *FS
 
 func NewFS() *FS {
-	return &FS{files: map[string]*inode{}, dirs: map[string]bool{"/": true, "/tmp": true}, nodes: map[string]*Node{}}
+	f := &FS{}
+	f.dirs.set("/", true)
+	f.dirs.set("/tmp", true)
+	return f
 }
 
 // Install makes f the file system seen by instrumented code.
@@ -175,10 +193,10 @@ func nodeOf(p string) string {
 }
 
 func (f *FS) Node(name string) *Node {
-	n := f.nodes[name]
+	n, _ := f.nodes.get(name)
 	if n == nil {
 		n = &Node{Name: name, Gen: 1}
-		f.nodes[name] = n
+		f.nodes.set(name, n)
 	}
 	return n
 }
@@ -210,7 +228,7 @@ func (f *FS) staleTask(node string) bool {
 	if tn == "" {
 		return false
 	}
-	n := f.nodes[tn]
+	n, _ := f.nodes.get(tn)
 	if n == nil {
 		return false
 	}
@@ -268,7 +286,7 @@ func (f *FS) point(op *Op) (apply bool, torn int, err error) {
 		simrt.Note("io-error %s %s #%d (armed)", OpNames[op.Kind], op.Path, idx)
 		return false, -1, syscall.EIO
 	}
-	if e, ok := n.ErrAt[idx]; ok {
+	if e, ok := n.errAt(idx); ok {
 		n.Stats.ErrFired[op.Kind]++
 		simrt.Note("io-error %s %s #%d", OpNames[op.Kind], op.Path, idx)
 		return false, -1, e
@@ -332,26 +350,26 @@ func (f *FS) Restart(name string) int {
 
 // ------------------------------------------------------------ path operations
 
-func (f *FS) parentExists(p string) bool { return f.dirs[path.Dir(p)] }
+func (f *FS) parentExists(p string) bool { return f.dirs.has(path.Dir(p)) }
 
 func MkdirAll(p string, perm FileMode) error {
 	f := cur
 	p = clean(p)
-	if f.dirs[p] {
+	if f.dirs.has(p) {
 		simrt.Yield(simrt.CIO)
 		if f.staleTask(nodeOf(p)) {
 			return perr("mkdir", p, ErrCrashed)
 		}
 		return nil
 	}
-	if _, ok := f.files[p]; ok {
+	if _, ok := f.files.get(p); ok {
 		return perr("mkdir", p, syscall.ENOTDIR)
 	}
 	op := &Op{Kind: OpMkdir, Path: p}
 	apply, _, err := f.point(op)
 	if apply {
 		for q := p; q != "/" && q != "."; q = path.Dir(q) {
-			f.dirs[q] = true
+			f.dirs.set(q, true)
 		}
 	}
 	if err = f.finish(op, err); err != nil {
@@ -363,7 +381,7 @@ func MkdirAll(p string, perm FileMode) error {
 func Mkdir(p string, perm FileMode) error {
 	f := cur
 	p = clean(p)
-	if f.dirs[p] {
+	if f.dirs.has(p) {
 		return perr("mkdir", p, fs.ErrExist)
 	}
 	if !f.parentExists(p) {
@@ -400,10 +418,10 @@ func Stat(p string) (FileInfo, error) {
 	if f.staleTask(nodeOf(p)) {
 		return nil, perr("stat", p, ErrCrashed)
 	}
-	if ino, ok := f.files[p]; ok {
+	if ino, ok := f.files.get(p); ok {
 		return fileInfo{name: path.Base(p), size: int64(len(ino.data)), mtime: ino.mtime}, nil
 	}
-	if f.dirs[p] {
+	if f.dirs.has(p) {
 		return fileInfo{name: path.Base(p), dir: true}, nil
 	}
 	return nil, perr("stat", p, fs.ErrNotExist)
@@ -418,7 +436,7 @@ func ReadDir(p string) ([]DirEntry, error) {
 	if f.staleTask(nodeOf(p)) {
 		return nil, perr("open", p, ErrCrashed)
 	}
-	if !f.dirs[p] {
+	if !f.dirs.has(p) {
 		return nil, perr("open", p, fs.ErrNotExist)
 	}
 	var out []DirEntry
@@ -426,12 +444,13 @@ func ReadDir(p string) ([]DirEntry, error) {
 	if prefix != "/" {
 		prefix += "/"
 	}
-	for q, ino := range f.files {
+	for _, q := range f.files.keysCopy() {
+		ino, _ := f.files.get(q)
 		if strings.HasPrefix(q, prefix) && !strings.Contains(q[len(prefix):], "/") {
 			out = append(out, fileInfo{name: q[len(prefix):], size: int64(len(ino.data)), mtime: ino.mtime})
 		}
 	}
-	for q := range f.dirs {
+	for _, q := range f.dirs.keysCopy() {
 		if q != p && strings.HasPrefix(q, prefix) && !strings.Contains(q[len(prefix):], "/") {
 			out = append(out, fileInfo{name: q[len(prefix):], dir: true})
 		}
@@ -444,8 +463,8 @@ func Rename(oldp, newp string) error {
 	f := cur
 	oldp, newp = clean(oldp), clean(newp)
 	op := &Op{Kind: OpRename, Path: oldp, Path2: newp}
-	_, isFile := f.files[oldp]
-	if !isFile && !f.dirs[oldp] {
+	_, isFile := f.files.get(oldp)
+	if !isFile && !f.dirs.has(oldp) {
 		simrt.Yield(simrt.CIO)
 		return &realos.LinkError{Op: "rename", Old: oldp, New: newp, Err: fs.ErrNotExist}
 	}
@@ -464,26 +483,27 @@ func Rename(oldp, newp string) error {
 }
 
 func (f *FS) applyRename(oldp, newp string) {
-	if ino, ok := f.files[oldp]; ok {
-		if old, ok2 := f.files[newp]; ok2 {
+	if ino, ok := f.files.get(oldp); ok {
+		if old, ok2 := f.files.get(newp); ok2 {
 			old.nlink--
 		}
-		delete(f.files, oldp)
-		f.files[newp] = ino
+		f.files.del(oldp)
+		f.files.set(newp, ino)
 		return
 	}
-	if f.dirs[oldp] {
+	if f.dirs.has(oldp) {
 		pre := oldp + "/"
-		for q, ino := range f.files {
+		for _, q := range f.files.keysCopy() {
+			ino, _ := f.files.get(q)
 			if strings.HasPrefix(q, pre) {
-				delete(f.files, q)
-				f.files[newp+"/"+q[len(pre):]] = ino
+				f.files.del(q)
+				f.files.set(newp+"/"+q[len(pre):], ino)
 			}
 		}
-		for q := range f.dirs {
+		for _, q := range f.dirs.keysCopy() {
 			if q == oldp || strings.HasPrefix(q, pre) {
-				delete(f.dirs, q)
-				f.dirs[newp+q[len(oldp):]] = true
+				f.dirs.del(q)
+				f.dirs.set(newp+q[len(oldp):], true)
 			}
 		}
 	}
@@ -492,8 +512,8 @@ func (f *FS) applyRename(oldp, newp string) {
 func Remove(p string) error {
 	f := cur
 	p = clean(p)
-	_, isFile := f.files[p]
-	if !isFile && !f.dirs[p] {
+	_, isFile := f.files.get(p)
+	if !isFile && !f.dirs.has(p) {
 		simrt.Yield(simrt.CIO)
 		if f.staleTask(nodeOf(p)) {
 			return perr("remove", p, ErrCrashed)
@@ -502,12 +522,12 @@ func Remove(p string) error {
 	}
 	if !isFile {
 		pre := p + "/"
-		for q := range f.files {
+		for _, q := range f.files.keysCopy() {
 			if strings.HasPrefix(q, pre) {
 				return perr("remove", p, syscall.ENOTEMPTY)
 			}
 		}
-		for q := range f.dirs {
+		for _, q := range f.dirs.keysCopy() {
 			if strings.HasPrefix(q, pre) {
 				return perr("remove", p, syscall.ENOTEMPTY)
 			}
@@ -517,10 +537,12 @@ func Remove(p string) error {
 	apply, _, err := f.point(op)
 	if apply {
 		if isFile {
-			f.files[p].nlink--
-			delete(f.files, p)
+			if ino0, ok0 := f.files.get(p); ok0 {
+				ino0.nlink--
+			}
+			f.files.del(p)
 		} else {
-			delete(f.dirs, p)
+			f.dirs.del(p)
 		}
 	}
 	if err = f.finish(op, err); err != nil {
@@ -536,14 +558,14 @@ func RemoveAll(p string) error {
 	apply, _, err := f.point(op)
 	if apply {
 		pre := p + "/"
-		for q := range f.files {
+		for _, q := range f.files.keysCopy() {
 			if q == p || strings.HasPrefix(q, pre) {
-				delete(f.files, q)
+				f.files.del(q)
 			}
 		}
-		for q := range f.dirs {
+		for _, q := range f.dirs.keysCopy() {
 			if q == p || strings.HasPrefix(q, pre) {
-				delete(f.dirs, q)
+				f.dirs.del(q)
 			}
 		}
 	}
@@ -577,7 +599,7 @@ func WriteFile(p string, data []byte, perm FileMode) error {
 func Chtimes(p string, atime, mtime time.Time) error {
 	f := cur
 	p = clean(p)
-	if ino, ok := f.files[p]; ok {
+	if ino, ok := f.files.get(p); ok {
 		ino.mtime = mtime
 		return nil
 	}
@@ -609,10 +631,10 @@ func CreateTemp(dir, pattern string) (*File, error) {
 	f := cur
 	if dir == "" {
 		dir = tmpDirForTask()
-		if !f.dirs[dir] {
+		if !f.dirs.has(dir) {
 			// like a real /tmp: always present
 			for q := dir; q != "/" && q != "."; q = path.Dir(q) {
-				f.dirs[q] = true
+				f.dirs.set(q, true)
 			}
 		}
 	}
@@ -631,8 +653,8 @@ func OpenFile(p string, flag int, perm FileMode) (*File, error) {
 	f := cur
 	p = clean(p)
 	name := nodeOf(p)
-	ino, exists := f.files[p]
-	if f.dirs[p] {
+	ino, exists := f.files.get(p)
+	if f.dirs.has(p) {
 		simrt.Yield(simrt.CIO)
 		if f.staleTask(name) {
 			return nil, perr("open", p, ErrCrashed)
@@ -662,7 +684,7 @@ func OpenFile(p string, flag int, perm FileMode) (*File, error) {
 		apply, _, err := f.point(op)
 		if apply {
 			ino = &inode{mtime: now(), nlink: 1}
-			f.files[p] = ino
+			f.files.set(p, ino)
 			f.created++
 			// Creation moves the logical clock of instrumented code by 1µs: kevo
 			// derives file names from time.Now().UnixNano() and a frozen virtual
@@ -692,7 +714,8 @@ func OpenFile(p string, flag int, perm FileMode) (*File, error) {
 
 func (ino *inode) saveShadow() {
 	if !ino.hasShadow {
-		ino.shadow = append([]byte(nil), ino.data[:ino.syncedLen]...)
+		ino.shadow = make([]byte, ino.syncedLen)
+		memcopy(ino.shadow, ino.data[:ino.syncedLen])
 		ino.hasShadow = true
 	}
 }
@@ -703,7 +726,9 @@ func (ino *inode) truncate(n int) {
 	}
 	if n <= len(ino.data) {
 		if ino.shared {
-			ino.data = append([]byte(nil), ino.data[:n]...)
+			nd := make([]byte, n)
+			memcopy(nd, ino.data[:n])
+			ino.data = nd
 			ino.shared = false
 		} else {
 			ino.data = ino.data[:n]
@@ -721,18 +746,24 @@ func (ino *inode) writeAt(p []byte, off int) {
 	end := off + len(p)
 	if ino.shared {
 		nd := make([]byte, len(ino.data), max(end, len(ino.data))+len(p)+64)
-		copy(nd, ino.data)
+		memcopy(nd, ino.data)
 		ino.data = nd
 		ino.shared = false
 	}
 	if off > len(ino.data) {
-		ino.data = append(ino.data, make([]byte, off-len(ino.data))...)
+		nd := make([]byte, off, off+len(p)+64)
+		memcopy(nd, ino.data)
+		ino.data = nd
 	}
-	if end <= len(ino.data) {
-		copy(ino.data[off:], p)
-	} else {
-		ino.data = append(ino.data[:off], p...)
+	if end > len(ino.data) {
+		if end > cap(ino.data) {
+			nd := make([]byte, len(ino.data), end+end/4+64)
+			memcopy(nd, ino.data)
+			ino.data = nd
+		}
+		ino.data = ino.data[:end]
 	}
+	memcopy(ino.data[off:end], p)
 	ino.mtime = now()
 }
 
@@ -807,7 +838,7 @@ func (fl *File) Read(p []byte) (int, error) {
 	if err != nil {
 		return 0, perr("read", fl.path, err)
 	}
-	copy(p, fl.ino.data[fl.pos:int(fl.pos)+n])
+	memcopy(p[:n], fl.ino.data[fl.pos:int(fl.pos)+n])
 	fl.pos += int64(n)
 	return n, nil
 }
@@ -832,7 +863,7 @@ func (fl *File) ReadAt(p []byte, off int64) (int, error) {
 	if off >= int64(len(fl.ino.data)) {
 		return 0, io.EOF
 	}
-	n := copy(p, fl.ino.data[off:])
+	n := memcopy(p, fl.ino.data[off:])
 	if n < len(p) {
 		return n, io.EOF
 	}
